@@ -729,7 +729,16 @@ func (h *hist) step(line string) (out string) {
 		case k == 'q':
 			switch {
 			case contains([]string{"map", "nats", "ints", "str", "zero", "regs", "embed"}, op):
-				R := h.br[idx]
+				var R *bivariate.QuotientRing
+				if idx == 3 {
+					// the ring made by the last successful `quotient` operation
+					if len(h.extraRings) == 0 || op != "embed" {
+						return "bad-op"
+					}
+					R = h.extraRings[len(h.extraRings)-1]
+				} else {
+					R = h.br[idx]
+				}
 				var p *bivariate.Polynomial
 				switch op {
 				case "embed":
@@ -893,6 +902,29 @@ func (h *hist) step(line string) (out string) {
 			return "err " + kindOf(err)
 		}
 		return "ok"
+	}
+	if op == "tcheck" {
+		// every element of field object k (with whatever tables it has) against field object 1 (a twin defined from
+		// the same descriptor, never given tables): x*g, x^-1, x*1
+		k := atIdx(t[0])
+		f, twin := h.field(k), h.field(1)
+		if k == 1 {
+			return "bad-op"
+		}
+		es := f.Elements()
+		g, tg, one := f.MultGenerator(), twin.MultGenerator(), f.One()
+		bad := 0
+		for _, e := range es {
+			te := decElem(twin, encElem(e))
+			if encElem(e.Times(g)) != encElem(te.Times(tg)) || encElem(e.Times(one)) != encElem(e) {
+				bad++
+				continue
+			}
+			if e.IsNonzero() && encElem(e.Inv()) != encElem(te.Inv()) {
+				bad++
+			}
+		}
+		return "ok " + strconv.Itoa(bad) + " of " + strconv.Itoa(len(es))
 	}
 	if op == "escr" {
 		// Elements() is a value-returning accessor: whatever the caller does to the returned objects and to the
